@@ -70,8 +70,8 @@ pub fn sample(k: u64, plain: bool) -> Option<Sample> {
     if plain {
         l.extra_auth_after = 0;
         l.extra_auth_before = 0;
-        l.enc_fields = 0;
-        l.enc_placeholders = 0;
+        l.enc.clear();
+        l.placeholder_abs = None;
         l.trailing_untrusted = 0;
         l.placeholder_delta = l.placeholder_delta.min(0);
     }
